@@ -123,6 +123,34 @@ func (o *Obligation) smtFile(timeoutMs int) string {
 	return sb.String()
 }
 
+// slicedSMT renders the query with only the relevant facts (see relevantFacts); "" if that is the whole set.
+func (o *Obligation) slicedSMT(depth int, tol float64) string {
+	if o.rawSMT != "" || o.Cover {
+		return ""
+	}
+	u := o.unit
+	goal := o.Guard.S + " " + o.Goal.S
+	idx := u.relevantFacts(o.NCmds, o.NFacts, goal, depth, tol)
+	if len(idx) >= o.NFacts {
+		return ""
+	}
+	extra := goal
+	for _, a := range u.axiomFacts {
+		extra += " " + a
+	}
+	for _, i := range idx {
+		extra += " " + u.facts[i]
+	}
+	var sb strings.Builder
+	sb.WriteString(u.smtHeaderWith(u.prunedCmds(o.NCmds, 0, extra)))
+	for _, i := range idx {
+		sb.WriteString("(assert " + u.facts[i] + ")\n")
+	}
+	sb.WriteString("(assert " + And(o.Guard, Not(o.Goal)).S + ")\n")
+	sb.WriteString("(check-sat)\n")
+	return sb.String()
+}
+
 type solverSpec struct {
 	name string
 	args func(file string, timeoutS int) []string
@@ -227,6 +255,47 @@ func discharge(o *Obligation, dir string, timeoutS int, which []solverSpec) {
 			final = &rr
 			cancel()
 			break
+		}
+	}
+	if final == nil && !o.Cover && !o.noSplit {
+		// hypothesis slicing: the same goal under the relevant subset of the facts (sound for unsat); two radii
+		for k, cfg := range []struct {
+			depth int
+			tol   float64
+		}{{2, 1.2}, {4, 2.0}} {
+			txt2 := o.slicedSMT(cfg.depth, cfg.tol)
+			if txt2 == "" {
+				continue
+			}
+			f2 := filepath.Join(dir, fmt.Sprintf("o%06d.slice%d.smt2", o.id, k))
+			if os.WriteFile(f2, []byte(txt2), 0o666) != nil {
+				continue
+			}
+			ctx2, cancel2 := context.WithCancel(context.Background())
+			res2 := make(chan solveResult, len(which))
+			var wg2 sync.WaitGroup
+			for _, sp := range which {
+				sp := sp
+				wg2.Add(1)
+				go func() {
+					defer wg2.Done()
+					res2 <- runSolver(ctx2, sp, f2, timeoutS)
+				}()
+			}
+			go func() { wg2.Wait(); close(res2) }()
+			for r := range res2 {
+				if r.status == "unsat" {
+					rr := r
+					rr.solver = fmt.Sprintf("slice%d:%s", k, r.solver)
+					final = &rr
+					cancel2()
+					break
+				}
+			}
+			cancel2()
+			if final != nil {
+				break
+			}
 		}
 	}
 	if final == nil && !o.Cover && !o.noSplit {
